@@ -15,6 +15,9 @@ COMMON_CORPUS = ["(?=)a{1,2}?b", "(?=)(a){0,2}?$", "\\ba{1,2}?b", "(?:x|(?!a))?a
                  # constructs the coverage measurement of the quick tier showed were never EXECUTED by the VM
                  # (always delegated): line anchors, word-start / word-end assertions, control escapes
                  "(?m)(?=)^a", "(?m:a$)(?=)", "(?m)(?<=^a)b", "(?m)(?:(?=)$\\n?)+", "(?=)\\<a", "a\\>(?=)", "(?<=\\<a)b", "(?=)\\n\\<", "(?s)(?=).a", "(?=)a\\tb", "(?i)(?=)(a)\\1"]
+# case-insensitive non-ASCII literals in VM context; class text with escaped class metacharacters
+COMMON_CORPUS += ["(?i)é*x", "(?i)(?=)é*x", "(?i)(?:é|bb)(?=)", "(é)(?=)(?i)é?", "(?i)\\x{e9}+?(?=)", "(?<=[a\\-c])b", "([a\\-c])\\1", "([g\\H])\\1", "(?<=[_\\H])b",
+                  "(?:(a)|.)(?(1)x|y)", "(?:(?:(a)|(.))(?(1)x|y)|(..))", "(a)(?(2))", "(?(1))", "(?<=(?!\\s)(.)\\b)x"]
 # an assertion between two hard neighbours is compiled to Insn::Assertion and executed by the VM itself
 COMMON_CORPUS += [pre + "(a*)\\n?" + a + "\\1" for pre in ("", "(?m)") for a in ("^", "$", "\\b", "\\B", "\\<", "\\>", "\\A", "\\z")]
 
@@ -71,7 +74,7 @@ def text_set(tier, seed, cfg):
     return base, extra + rnd
 
 
-ALWAYS = ["aaab", "aaa", "a\nab", "ab a"]      # more repetitions than {1,2} / {0,2} admit, with and without a continuation
+ALWAYS = ["aaab", "aaa", "a\nab", "ab a", "Éx", "b-", "¿x"]      # more repetitions than {1,2} / {0,2} admit, with and without a continuation
 
 
 def pick_texts(info, base, extra, r, k_base, k_extra):
@@ -105,7 +108,7 @@ def run(cfg, tier, seed, replay=None):
     ctx = {"cfg": cfg, "tier": tier, "seed": seed, "res": res, "infos": infos, "texts_for": texts_for,
            "compiled": compiled, "replay": replay, "violations": [], "known_hits": {}, "evals": 0, "nontrivial": 0,
            "tie_fail": []}
-    tiers = cfg.get("tiers", ("t2", "run", "sem"))
+    tiers = tuple(cfg.get("tiers", ("t2", "run", "sem"))) + (() if cfg.get("no_t1") else ("t1",))
     notes = {"patterns": len(pats), "compiled": len(compiled),
              "fancy": sum(1 for i in infos if i["impl"].get("new", "").startswith("fancy")),
              "wrap": sum(1 for i in infos if i["impl"].get("new", "").startswith("wrap")),
@@ -118,6 +121,15 @@ def run(cfg, tier, seed, replay=None):
         "inside_stage3_every_program": sum(1 for i in fancy_m if i["model"].get("scope3") == "1"),
         "inside_api_layer_theorems_no_keepout_under_lookbehind": sum(1 for i in fancy_m if i["model"].get("scope4") == "1"),
         "of": len(fancy_m)}
+    # ---- T1: the model analyses the tree and the back-reference set the REAL parser produced; the parser
+    # model must produce the same ones (a parser change that drops a back-reference from the set, or
+    # spells a class differently, is otherwise invisible to T2/T3)
+    if "t1" in tiers and not replay:
+        from . import t1
+        bad1, _, _ = t1.compare(pats)
+        ok = res.oblige("tie:T1 parse tree, back-reference set, names, error kind and position, parser model = real parser on %d patterns" % len(pats), not bad1)
+        if not ok:
+            ctx["tie_fail"].append(dict(bad1[0], tier="T1"))
     # ---- T2
     if "t2" in tiers:
         bad = [i for i in infos if i["t2_ok"] is False]
